@@ -121,6 +121,19 @@ let eval = function
     let v = vec v in
     let k = nat_of_int (log2i (Stdlib.List.length v * int_of_string blowup)) in
     show_vec (FFT.spec_eval_offset (ops f) k (rootf f k) v (z off))
+  | [ "split_eval"; fl; v ] ->
+    (* concurrent::evaluate_poly = permute (split_radix_fft p twiddles), std twiddles *)
+    let f = fld_of fl in
+    let v = vec v in
+    (match std_tw f (Stdlib.List.length v) with
+     | None -> "panic"
+     | Some t -> opt_vec (FFTSplit.evaluate_poly_concurrent (ops f) v t))
+  | [ "split_interp"; fl; v ] ->
+    let f = fld_of fl in
+    let v = vec v in
+    (match std_itw f (Stdlib.List.length v) with
+     | None -> "panic"
+     | Some t -> opt_vec (FFTSplit.interpolate_poly_concurrent (ops f) v t))
   | [ "interpt"; fl; tw; v ] ->
     let f = fld_of fl in
     let v = vec v in
